@@ -328,14 +328,27 @@ impl std::ops::DivAssign<FeelNumber> for FeelNumber {
   }
 }
 
+/// Calculates `q1 - q2 * floor(q1 / q2)`. The remainder calculated by the decimal library is exact
+/// and takes the sign of the dividend, so only one addition (correctly rounded) may be needed to move
+/// it to the side of the divisor. When the quotient has more than 34 digits the library can not
+/// calculate the remainder, the result is then calculated with intermediate rounding.
+fn dec_modulo(q1: &DecQuad, q2: &DecQuad) -> DecQuad {
+  let remainder = dec_remainder(q1, q2);
+  if !dec_is_finite(&remainder) {
+    return dec_reduce(&dec_subtract(q1, &dec_multiply(q2, &dec_floor(&dec_divide(q1, q2)))));
+  }
+  if !dec_is_zero(&remainder) && dec_is_negative(&remainder) != dec_is_negative(q2) {
+    dec_reduce(&dec_add(&remainder, q2))
+  } else {
+    dec_reduce(&remainder)
+  }
+}
+
 impl std::ops::Rem<FeelNumber> for FeelNumber {
   type Output = Self;
   ///
   fn rem(self, rhs: Self) -> Self::Output {
-    Self(dec_reduce(&dec_subtract(
-      &self.0,
-      &dec_multiply(&rhs.0, &dec_floor(&dec_divide(&self.0, &rhs.0))),
-    )))
+    Self(dec_modulo(&self.0, &rhs.0))
   }
 }
 
@@ -350,7 +363,7 @@ impl std::ops::Neg for FeelNumber {
 impl std::ops::RemAssign<FeelNumber> for FeelNumber {
   ///
   fn rem_assign(&mut self, rhs: Self) {
-    self.0 = dec_reduce(&dec_subtract(&self.0, &dec_multiply(&rhs.0, &dec_floor(&dec_divide(&self.0, &rhs.0)))));
+    self.0 = dec_modulo(&self.0, &rhs.0);
   }
 }
 
